@@ -1,56 +1,12 @@
-import Aiorpcx.C16.Model
+import Aiorpcx.C17.Tables
 import Aiorpcx.Facts.C17
 /-! C17 — the decision tables regenerated from the source tree on every run
     (`tools/facts/c17.py`: what the *real* protocol objects do for every value 0..255 of every
     decision byte) are exactly what the model does.  Closed by kernel evaluation: if an edit of
     `socks.py` changes the reaction to any value of any decision byte, one of these stops
-    compiling. -/
+    compiling.  Part 1: one decision byte at a time. -/
 namespace Aiorpcx.C17
 open Aiorpcx.Socks
-
-def isNeed : Res → Bool
-  | .need _ => true
-  | _ => false
-
-/-- (verdict, bytes fed) of a by-hand run fed one byte per `NeedData`; same encoding as
-    tools/facts/c17.py: 0 done, 1 SOCKSFailure, 2 SOCKSProtocolError, 3 other, 4 wants more -/
-def summarize (rs : List Res) : Nat × Nat :=
-  let needs := (rs.filter isNeed).length
-  match rs.getLast? with
-  | some .fin => (0, needs)
-  | some (.raise .socksFailure) => (1, needs)
-  | some (.raise .socksProtocolError) => (2, needs)
-  | some (.need _) => (4, needs - 1)
-  | _ => (3, needs)
-
-def tableEntry (cfg : Cfg) (stream : Bytes) : Nat × Nat :=
-  summarize (driveObject (stream.length + 8) (Client.init cfg) (stream.map fun b => [b]))
-
-/-- the same, feeding exactly the number of bytes each `NeedData` asks for -/
-def driveExact : Nat → Client → Bytes → Nat → Nat × Nat
-  | 0, _, _, fed => (3, fed)
-  | f + 1, c, s, fed =>
-    match nextMessage c with
-    | (_, .raise .socksFailure) => (1, fed)
-    | (_, .raise .socksProtocolError) => (2, fed)
-    | (_, .raise _) => (3, fed)
-    | (_, .fin) => (0, fed)
-    | (c', .msg _) => driveExact f c' s fed
-    | (c', .need k) =>
-      if s.isEmpty then (4, fed)
-      else driveExact f (c'.receiveData (s.take k)) (s.drop k) (fed + (s.take k).length)
-
-def cfg4 : Cfg := .s4 (.ipv4 (vec4 1 2 3 4)) 80 none
-def cfg5n : Cfg := .s5 [1, 1, 2, 3, 4, 0, 80] [] [0]
-def cfg5a : Cfg := .s5 [1, 1, 2, 3, 4, 0, 80] [1, 1, 117, 1, 112] [0, 2]
-def ok5 : Bytes := [5, 0, 0, 1, 9, 9, 9, 9, 0, 80]
-
-def table (cfg : Cfg) (f : UInt8 → Bytes) : List (Nat × Nat) :=
-  (List.range 256).map fun b => tableEntry cfg (f b.toUInt8)
-
-def tableExact (cfg : Cfg) (f : UInt8 → Bytes) : List (Nat × Nat) :=
-  (List.range 256).map fun b =>
-    driveExact ((f b.toUInt8).length + 8) (Client.init cfg) (f b.toUInt8) 0
 
 /-- the extractor's client configurations are the ones used here -/
 theorem facts_cfgs :
@@ -59,60 +15,24 @@ theorem facts_cfgs :
     mkCfg .socks5 (.ipv4 (vec4 1 2 3 4)) 80 (some ([117], [112])) = .ok cfg5a := by decide
 
 set_option maxRecDepth 100000 in
-/-- SOCKS4 reply: every value of VN and of CD -/
+/-- SOCKS4 reply: every value of VN and of CD; and with a second fault (VN with a refusing CD,
+    CD with a bad VN: the version check wins) -/
 theorem facts_table_socks4 :
     Facts.C17.s4Vn = table cfg4 (fun b => [b, 90, 0, 0, 0, 0, 0, 0, 7]) ∧
-    Facts.C17.s4Cd = table cfg4 (fun b => [0, b, 1, 2, 3, 4, 5, 6, 7]) := by
-  constructor <;> decide +kernel
+    Facts.C17.s4Cd = table cfg4 (fun b => [0, b, 1, 2, 3, 4, 5, 6, 7]) ∧
+    Facts.C17.s4VnRefused = table cfg4 (fun b => [b, 91, 0, 0, 0, 0, 0, 0, 7]) ∧
+    Facts.C17.s4CdVnBad = table cfg4 (fun b => [1, b, 0, 0, 0, 0, 0, 0, 7]) := by
+  refine ⟨?_, ?_, ?_, ?_⟩ <;> decide +kernel
 
 set_option maxRecDepth 100000 in
-/-- RFC 1928 method selection: every value of VER and of METHOD, with and without credentials -/
+/-- RFC 1928 method selection: every value of VER and of METHOD, with and without credentials;
+    VER with a refusing METHOD, METHOD with a bad VER -/
 theorem facts_table_method :
     Facts.C17.s5Ver = table cfg5n (fun b => [b, 0] ++ ok5 ++ [7]) ∧
     Facts.C17.s5MethodNoAuth = table cfg5n (fun b => [5, b] ++ ok5 ++ [7]) ∧
-    Facts.C17.s5MethodAuth = table cfg5a (fun b => [5, b] ++ ok5 ++ [7]) := by
-  refine ⟨?_, ?_, ?_⟩ <;> decide +kernel
-
-set_option maxRecDepth 100000 in
-/-- RFC 1929 status reply: every value of VER and of STATUS -/
-theorem facts_table_auth :
-    Facts.C17.s5AuthVer = table cfg5a (fun b => [5, 2, b, 0] ++ ok5 ++ [7]) ∧
-    Facts.C17.s5AuthStatus = table cfg5a (fun b => [5, 2, 1, b] ++ ok5 ++ [7]) := by
-  constructor <;> decide +kernel
-
-set_option maxRecDepth 100000 in
-/-- RFC 1928 reply: every value of VER, REP, RSV, ATYP (granting and refusing) -/
-theorem facts_table_reply :
-    Facts.C17.s5ConnVer = table cfg5n (fun b => [5, 0, b, 0, 0, 1, 9, 9, 9, 9, 0, 80, 7]) ∧
-    Facts.C17.s5ConnRep = table cfg5n (fun b => [5, 0, 5, b, 0, 1, 9, 9, 9, 9, 0, 80, 7]) ∧
-    Facts.C17.s5ConnRsv = table cfg5n (fun b => [5, 0, 5, 0, b, 1, 9, 9, 9, 9, 0, 80, 7]) ∧
-    Facts.C17.s5ConnAtyp = table cfg5n (fun b => [5, 0, 5, 0, 0, b, 2] ++ List.replicate 20 9) ∧
-    Facts.C17.s5ConnAtypRefused =
-      table cfg5n (fun b => [5, 0, 5, 1, 0, b, 2] ++ List.replicate 20 9) := by
+    Facts.C17.s5MethodAuth = table cfg5a (fun b => [5, b] ++ ok5 ++ [7]) ∧
+    Facts.C17.s5VerMethodBad = table cfg5n (fun b => [b, 255] ++ ok5 ++ [7]) ∧
+    Facts.C17.s5MethodVerBad = table cfg5a (fun b => [4, b] ++ ok5 ++ [7]) := by
   refine ⟨?_, ?_, ?_, ?_, ?_⟩ <;> decide +kernel
-
-set_option maxRecDepth 100000 in
-/-- domain-name replies: every bound-address length 0..255 (exactly `2 [+2] + 5 + len + 2`
-    bytes are asked for; one byte fewer on the wire and the object still wants data) -/
-theorem facts_table_length :
-    Facts.C17.s5ConnLen =
-      tableExact cfg5n (fun b => [5, 0, 5, 0, 0, 3, b] ++ List.replicate (b.toNat + 3) 0) ∧
-    Facts.C17.s5ConnLenAuth =
-      tableExact cfg5a (fun b => [5, 2, 1, 0, 5, 0, 0, 3, b] ++ List.replicate (b.toNat + 3) 0) ∧
-    Facts.C17.s5ConnLenShort =
-      tableExact cfg5n (fun b => [5, 0, 5, 0, 0, 3, b] ++ List.replicate (b.toNat + 1) 0) := by
-  refine ⟨?_, ?_, ?_⟩ <;> decide +kernel
-
-/-- every code the source lists as an error is a refusal code of the grammar (≠ the granting
-    code), and the exception hierarchy is the one the model assumes: both SOCKS exceptions are
-    `SOCKSError`s, neither is a subclass of the other, `NeedData` is not caught by
-    `_connect_one`, which catches exactly `OSError` and `SOCKSError` -/
-theorem facts_codes_and_exceptions :
-    (∀ k ∈ Facts.C17.errorCodes, k ≠ 0 ∧ k < 256) ∧
-    (∀ k ∈ Facts.C17.replyCodes, k < 256) ∧
-    Facts.C17.protocolErrorIsSocksError = true ∧ Facts.C17.failureIsSocksError = true ∧
-    Facts.C17.failureIsProtocolError = false ∧ Facts.C17.protocolErrorIsFailure = false ∧
-    Facts.C17.needDataIsCaught = false ∧
-    Facts.C17.connectOneCaught = ["OSError", "SOCKSError"] := by decide
 
 end Aiorpcx.C17
